@@ -17,10 +17,36 @@ Qed.
 Lemma strictly_below_nil_r : forall p, strictly_below p [] = false.
 Proof. destruct p; reflexivity. Qed.
 
+Definition root_handle (r : nat) : otype := mkO true TJson 8 true (PRef r []).
+
+Lemma create_tab : forall st n,
+  m_tab (fst (occaCreateJson st n)) n = mkSlot (root_handle (m_next st)) true.
+Proof.
+  intros. unfold occaCreateJson. cbv zeta. cbn [fst with_slot set_tab m_tab]. unfold set_slot.
+  rewrite Nat.eqb_refl. reflexivity.
+Qed.
+
+Lemma create_root : forall st n, m_roots (fst (occaCreateJson st n)) (m_next st) = Some JNone.
+Proof.
+  intros. unfold occaCreateJson. cbv zeta. cbn [fst with_slot set_tab m_roots]. rewrite Nat.eqb_refl. reflexivity.
+Qed.
+
+(* opening a variable that holds the handle of heap object r *)
+Lemma open_root_handle : forall st n r t,
+  m_tab st n = mkSlot (root_handle r) true -> m_roots st r = Some t -> open_handle st n = HGo r [] t.
+Proof. intros st n r t Ht Hr. unfold open_handle. rewrite Ht. cbn. rewrite Hr. reflexivity. Qed.
+
+Lemma kill_below_root_handle : forall r' p T n r,
+  T n = mkSlot (root_handle r) true -> kill_below r' p T n = T n.
+Proof.
+  intros. unfold kill_below. cbv zeta. rewrite H. cbn [sl_val o_val root_handle].
+  rewrite strictly_below_nil_r, andb_false_r. reflexivity.
+Qed.
+
 Section FreshObject.
-  Variables (F : fops) (st : mstate) (n m : nat) (key : bytes) (k : kind) (v : Z).
+  Variables (F : fops) (st : mstate) (n m : nat) (b : Z) (key' : bytes) (k : kind) (v : Z).
+  Let key := b :: key'.
   Hypothesis Hkey : key_ok key = true.
-  Hypothesis Hne : key <> [].
   Hypothesis Hv : in_range k v = true.
 
   Let r := m_next st.
@@ -31,80 +57,70 @@ Section FreshObject.
   Let st3 := fst get.
 
   Lemma fresh_open1 : open_handle st1 n = HGo r [] JNone.
-  Proof.
-    subst st1 r. unfold occaCreateJson, open_handle. cbv zeta. cbn [fst with_slot set_tab m_tab set_slot].
-    rewrite Nat.eqb_refl. cbn. rewrite Nat.eqb_refl. reflexivity.
-  Qed.
+  Proof. apply open_root_handle; [apply create_tab | apply create_root]. Qed.
 
-  Lemma fresh_set_obs : snd set = OUnit.
+  Lemma fresh_set :
+    set = (kill (put_node (put_node st1 r [] (JObj [])) r [] (JObj [(key, JNum k v)])) r [SK key], OUnit).
   Proof.
     subst set. unfold occaJsonObjectSet. rewrite Hkey. cbn [negb].
-    assert (Hmag : o_magic (sl_val (m_tab st1 n)) = true).
-    { subst st1. unfold occaCreateJson. cbv zeta. cbn. rewrite Nat.eqb_refl. reflexivity. }
-    rewrite Hmag. cbn [negb open_value]. rewrite fresh_open1. cbv zeta. cbn [auto_cast].
-    rewrite (infer_scalar _ _ _ Hv). destruct key; [contradiction Hne; reflexivity | reflexivity].
+    assert (Ht1 : m_tab st1 n = mkSlot (root_handle r) true) by apply create_tab.
+    rewrite Ht1. cbn [sl_val root_handle o_magic negb open_value].
+    rewrite fresh_open1. cbv zeta. cbn [auto_cast].
+    rewrite (infer_scalar _ _ _ Hv). subst key. reflexivity.
   Qed.
 
   Lemma fresh_state2 :
-    m_roots st2 r = Some (JObj [(key, JNum k v)]) /\ m_tab st2 n = m_tab st1 n.
+    m_roots st2 r = Some (JObj [(key, JNum k v)]) /\ m_tab st2 n = mkSlot (root_handle r) true.
   Proof.
-    subst st2 set. unfold occaJsonObjectSet. rewrite Hkey. cbn [negb].
-    assert (Hmag : o_magic (sl_val (m_tab st1 n)) = true).
-    { subst st1. unfold occaCreateJson. cbv zeta. cbn. rewrite Nat.eqb_refl. reflexivity. }
-    rewrite Hmag. cbn [negb open_value]. rewrite fresh_open1. cbv zeta. cbn [auto_cast].
-    rewrite (infer_scalar _ _ _ Hv).
-    assert (Hroot : m_roots st1 r = Some JNone).
-    { subst st1 r. unfold occaCreateJson. cbv zeta. cbn. rewrite Nat.eqb_refl. reflexivity. }
-    destruct key as [|b key']; [contradiction Hne; reflexivity|]. cbn [fst].
-    split.
-    - cbn [kill set_tab m_roots]. unfold put_node at 1.
-      rewrite (put_node_root_same _ _ _ _ _ Hroot). cbn. rewrite Nat.eqb_refl. reflexivity.
-    - cbn [kill set_tab m_tab]. rewrite !put_node_tab. unfold kill_below. cbv zeta.
-      assert (Hval : o_val (sl_val (m_tab st1 n)) = PRef r []).
-      { subst st1 r. unfold occaCreateJson. cbv zeta. cbn. rewrite Nat.eqb_refl. reflexivity. }
-      rewrite Hval. rewrite strictly_below_nil_r, andb_false_r. reflexivity.
+    subst st2. rewrite fresh_set. cbn [fst]. split.
+    - cbn [kill set_tab m_roots].
+      assert (H1 : m_roots (put_node st1 r [] (JObj [])) r = Some (JObj [])).
+      { rewrite (put_node_root_same _ _ _ _ _ (create_root st n)). reflexivity. }
+      rewrite (put_node_root_same _ _ _ _ _ H1). reflexivity.
+    - cbn [kill set_tab m_tab]. rewrite !put_node_tab.
+      rewrite (kill_below_root_handle _ _ _ _ r (create_tab st n)). apply create_tab.
   Qed.
 
   Lemma fresh_open2 : open_handle st2 n = HGo r [] (JObj [(key, JNum k v)]).
-  Proof.
-    destruct fresh_state2 as [Hr Ht]. unfold open_handle. rewrite Ht, Hr.
-    subst st1 r. unfold occaCreateJson. cbv zeta. cbn. rewrite Nat.eqb_refl. cbn. reflexivity.
-  Qed.
+  Proof. destruct fresh_state2 as [Hr Ht]. apply open_root_handle; assumption. Qed.
 
-  Lemma fresh_get_obs : snd get = OType (mkO true TJson 8 false (PRef r [SK key])).
+  Lemma fresh_get :
+    get = (with_slot (put_node st2 r [] (JObj [(key, JNum k v)])) m
+             (mkSlot (mkO true TJson 8 false (PRef r [SK key])) true),
+           OType (mkO true TJson 8 false (PRef r [SK key]))).
   Proof.
     subst get. unfold occaJsonObjectGet. rewrite Hkey. cbn [negb]. rewrite fresh_open2. cbv zeta.
-    cbn [auto_cast]. destruct key as [|b key']; [contradiction Hne; reflexivity|].
-    cbn [assoc_get]. rewrite bytes_eqb_refl. reflexivity.
+    cbn [auto_cast]. subst key. cbn [assoc_get]. rewrite bytes_eqb_refl. reflexivity.
   Qed.
 
   Lemma fresh_open3 : open_handle st3 m = HGo r [SK key] (JNum k v).
   Proof.
-    subst st3 get. unfold occaJsonObjectGet. rewrite Hkey. cbn [negb]. rewrite fresh_open2. cbv zeta.
-    cbn [auto_cast]. destruct key as [|b key'] eqn:Ek; [contradiction Hne; reflexivity|].
-    cbn [assoc_get]. rewrite bytes_eqb_refl. cbn [handle_to fst].
-    unfold open_handle. cbn [with_slot set_tab m_tab set_slot]. rewrite Nat.eqb_refl.
+    subst st3. rewrite fresh_get. cbn [fst]. unfold open_handle.
+    cbn [with_slot set_tab m_tab]. unfold set_slot. rewrite Nat.eqb_refl.
     cbn [sl_val sl_ok o_magic o_tag o_val negb]. change (tag_eqb TJson TJson) with true. cbn [negb].
-    cbn [m_roots]. destruct fresh_state2 as [Hr _]. rewrite <- Ek in *.
-    rewrite (put_node_root_same _ _ _ _ _ Hr). cbn [modify_at node_at].
-    rewrite Ek. cbn [assoc_get]. rewrite bytes_eqb_refl. reflexivity.
+    cbn [with_slot set_tab m_roots]. destruct fresh_state2 as [Hr _].
+    rewrite (put_node_root_same _ _ _ _ _ Hr). cbn [modify_at node_at]. subst key.
+    cbn [assoc_get]. rewrite bytes_eqb_refl. reflexivity.
   Qed.
 
   (* occaJsonGetNumber(occaJsonObjectGet(j, key), type-of-k) gives back the constructor's occaType *)
-  Theorem object_roundtrip_number :
+  Lemma object_roundtrip_number_l :
+    snd set = OUnit /\
+    snd get = OType (mkO true TJson 8 false (PRef r [SK key])) /\
     snd (occaJsonGetNumber F cfg_fixed st3 m k) = OType (lit_otype (LScalar k v)).
   Proof.
+    split; [rewrite fresh_set; reflexivity|]. split; [rewrite fresh_get; reflexivity|].
     unfold occaJsonGetNumber. rewrite fresh_open3.
     assert (Hc : s_conv k k v = Some v) by (unfold s_conv; rewrite kind_eqb_refl; reflexivity).
     rewrite (newOccaType_prim_typed_conv F _ _ _ _ Hv Hc). reflexivity.
   Qed.
 
-  Theorem object_roundtrip_bool : k = KBool ->
+  Lemma object_roundtrip_bool_l : k = KBool ->
     snd (occaJsonGetBoolean st3 m) = OBool (v =? 1) /\
     snd (occaJsonIs st3 m) = OFlags true true false false false.
   Proof.
-    intros ->. unfold occaJsonGetBoolean, occaJsonIs. rewrite fresh_open3. cbn [snd]. split; [|reflexivity].
-    apply in_range_spec in Hv. cbn in Hv. f_equal.
+    intros Hk. unfold occaJsonGetBoolean, occaJsonIs. rewrite fresh_open3. rewrite Hk. cbn [snd].
+    split; [|reflexivity]. rewrite Hk in Hv. apply in_range_spec in Hv. cbn in Hv. f_equal.
     destruct (Z.eqb_spec v 0); destruct (Z.eqb_spec v 1); try reflexivity; lia.
   Qed.
 End FreshObject.
@@ -121,50 +137,56 @@ Section FreshArray.
   Let st3 := fst get.
 
   Lemma afresh_open1 : open_handle st1 n = HGo r [] JNone.
+  Proof. apply open_root_handle; [apply create_tab | apply create_root]. Qed.
+
+  Lemma afresh_push :
+    push = (kill (put_node (put_node st1 r [] (JArr [])) r [] (JArr [JNum k v])) r [], OUnit).
   Proof.
-    subst st1 r. unfold occaCreateJson, open_handle. cbv zeta. cbn [fst with_slot set_tab m_tab set_slot].
-    rewrite Nat.eqb_refl. cbn. rewrite Nat.eqb_refl. reflexivity.
+    subst push. unfold occaJsonArrayPush.
+    assert (Ht1 : m_tab st1 n = mkSlot (root_handle r) true) by apply create_tab.
+    rewrite Ht1. cbn [sl_val root_handle o_magic negb open_value].
+    rewrite afresh_open1. cbv zeta. cbn [auto_cast].
+    rewrite (infer_scalar _ _ _ Hv). reflexivity.
   Qed.
 
   Lemma afresh_state2 :
-    snd push = OUnit /\ m_roots st2 r = Some (JArr [JNum k v]) /\ m_tab st2 n = m_tab st1 n.
+    m_roots st2 r = Some (JArr [JNum k v]) /\ m_tab st2 n = mkSlot (root_handle r) true.
   Proof.
-    subst st2 push. unfold occaJsonArrayPush.
-    assert (Hmag : o_magic (sl_val (m_tab st1 n)) = true).
-    { subst st1. unfold occaCreateJson. cbv zeta. cbn. rewrite Nat.eqb_refl. reflexivity. }
-    rewrite Hmag. cbn [negb open_value]. rewrite afresh_open1. cbv zeta. cbn [auto_cast].
-    rewrite (infer_scalar _ _ _ Hv).
-    assert (Hroot : m_roots st1 r = Some JNone).
-    { subst st1 r. unfold occaCreateJson. cbv zeta. cbn. rewrite Nat.eqb_refl. reflexivity. }
-    cbn [fst snd app]. split; [reflexivity|]. split.
-    - cbn [kill set_tab m_roots]. unfold put_node at 1.
-      rewrite (put_node_root_same _ _ _ _ _ Hroot). cbn. rewrite Nat.eqb_refl. reflexivity.
-    - cbn [kill set_tab m_tab]. rewrite !put_node_tab. unfold kill_below. cbv zeta.
-      assert (Hval : o_val (sl_val (m_tab st1 n)) = PRef r []).
-      { subst st1 r. unfold occaCreateJson. cbv zeta. cbn. rewrite Nat.eqb_refl. reflexivity. }
-      rewrite Hval. rewrite strictly_below_nil_r, andb_false_r. reflexivity.
+    subst st2. rewrite afresh_push. cbn [fst]. split.
+    - cbn [kill set_tab m_roots].
+      assert (H1 : m_roots (put_node st1 r [] (JArr [])) r = Some (JArr [])).
+      { rewrite (put_node_root_same _ _ _ _ _ (create_root st n)). reflexivity. }
+      rewrite (put_node_root_same _ _ _ _ _ H1). reflexivity.
+    - cbn [kill set_tab m_tab]. rewrite !put_node_tab.
+      rewrite (kill_below_root_handle _ _ _ _ r (create_tab st n)). apply create_tab.
   Qed.
 
   Lemma afresh_open2 : open_handle st2 n = HGo r [] (JArr [JNum k v]).
+  Proof. destruct afresh_state2 as [Hr Ht]. apply open_root_handle; assumption. Qed.
+
+  Lemma afresh_get :
+    get = (with_slot (put_node st2 r [] (JArr [JNum k v])) m
+             (mkSlot (mkO true TJson 8 false (PRef r [SI 0%nat])) true),
+           OType (mkO true TJson 8 false (PRef r [SI 0%nat]))).
   Proof.
-    destruct afresh_state2 as [_ [Hr Ht]]. unfold open_handle. rewrite Ht, Hr.
-    subst st1 r. unfold occaCreateJson. cbv zeta. cbn. rewrite Nat.eqb_refl. cbn. reflexivity.
+    subst get. unfold occaJsonArrayGet. rewrite afresh_open2. cbv zeta. reflexivity.
   Qed.
 
   Lemma afresh_open3 : open_handle st3 m = HGo r [SI 0%nat] (JNum k v).
   Proof.
-    subst st3 get. unfold occaJsonArrayGet. rewrite afresh_open2. cbv zeta.
-    cbn [auto_cast Z.ltb Z.compare Z.to_nat nth_error handle_to fst].
-    unfold open_handle. cbn [with_slot set_tab m_tab set_slot]. rewrite Nat.eqb_refl.
+    subst st3. rewrite afresh_get. cbn [fst]. unfold open_handle.
+    cbn [with_slot set_tab m_tab]. unfold set_slot. rewrite Nat.eqb_refl.
     cbn [sl_val sl_ok o_magic o_tag o_val negb]. change (tag_eqb TJson TJson) with true. cbn [negb].
-    cbn [m_roots]. destruct afresh_state2 as [_ [Hr _]].
+    cbn [with_slot set_tab m_roots]. destruct afresh_state2 as [Hr _].
     rewrite (put_node_root_same _ _ _ _ _ Hr). reflexivity.
   Qed.
 
   (* occaJsonGetNumber(occaJsonArrayGet(a, 0), type-of-k) after a push gives back the occaType *)
-  Theorem array_roundtrip_number :
+  Lemma array_roundtrip_number_l :
+    snd push = OUnit /\
     snd (occaJsonGetNumber F cfg_fixed st3 m k) = OType (lit_otype (LScalar k v)).
   Proof.
+    split; [rewrite afresh_push; reflexivity|].
     unfold occaJsonGetNumber. rewrite afresh_open3.
     assert (Hc : s_conv k k v = Some v) by (unfold s_conv; rewrite kind_eqb_refl; reflexivity).
     rewrite (newOccaType_prim_typed_conv F _ _ _ _ Hv Hc). reflexivity.
